@@ -1,11 +1,21 @@
 use crate::verdict::Ctx;
 
 pub mod c01;
+pub mod c02;
+pub mod c04;
+pub mod c05;
+pub mod c10;
+pub mod files;
+pub mod query;
 
 pub fn run(ctx: &Ctx, part: &str) -> i32 {
     let _ = part;
     match ctx.id.as_str() {
         "C01" => c01::run(ctx),
+        "C02" => c02::run(ctx),
+        "C04" => c04::run(ctx),
+        "C05" => c05::run(ctx),
+        "C10" => c10::run(ctx),
         other => {
             println!("INCONCLUSIVE property={} unknown check", other);
             2
